@@ -195,7 +195,14 @@ pub fn run_check(id: &str, tier: Tier) -> i32 {
             "completed": !st.capped,
             "wall_s": st.wall.as_secs_f64(),
         }));
+        // a "gate" part decides the check on its own when it finds a violation: the parts behind it are
+        // not run (they could not be trusted - e.g. executions that influence each other through state
+        // shared between clients would show as nondeterminism there)
+        let gate_hit = p.params["gate"].as_bool().unwrap_or(false) && !st.violations.is_empty();
         total.merge(st);
+        if gate_hit {
+            break;
+        }
     }
     // the same parts in the build without overflow checks / debug assertions
     let mut rel_summary = json!(null);
